@@ -77,3 +77,71 @@ func VerifH_C05_toBoolean() {
 	}
 	verifCover("reached")
 }
+
+// Operators on operands whose Value holds a Go integer (the result of a
+// bitwise operator, a bridged Go int, a length): ES5 has only doubles, so every
+// operator must behave exactly as on float64(x) - including -0 from negating
+// 0 and no 32/64-bit wrap-around at the extremes.
+func VerifH_C05_operators_intkinds() {
+	vm := New()
+	var xi int64
+	expr := "x"
+	switch verifChoose(6) {
+	case 0:
+		y := verifNondetInt32()
+		vm.Set("x", y)
+		xi = int64(y)
+	case 1:
+		y := verifNondetInt64()
+		verifAssume(y >= -(1<<53) && y <= 1<<53)
+		vm.Set("x", y)
+		xi = y
+	case 2:
+		y := verifNondetUint32()
+		vm.Set("x", y)
+		xi = int64(y)
+	case 3:
+		y := verifNondetInt()
+		verifAssume(y >= -(1<<53) && y <= 1<<53)
+		vm.Set("x", y)
+		xi = int64(y)
+	case 4: // an int32-valued intermediate result
+		y := verifNondetInt32()
+		vm.Set("x", y)
+		expr = "(x|0)"
+		xi = int64(y)
+	default: // a uint32-valued intermediate result
+		y := verifNondetUint32()
+		vm.Set("x", y)
+		expr = "(x>>>0)"
+		xi = int64(y)
+	}
+	x := float64(xi)
+	verifCover("reached")
+	switch verifChoose(6) {
+	case 0:
+		v, ok := verifRun(vm, "-"+expr)
+		f, _ := v.ToFloat()
+		verifAssert(ok && v.IsNumber() && sameF64(f, -x), "11.4.7 unary minus on an integer-valued operand (-0 for 0, no wrap-around)")
+	case 1:
+		v, ok := verifRun(vm, "+"+expr)
+		f, _ := v.ToFloat()
+		verifAssert(ok && v.IsNumber() && sameF64(f, x), "11.4.6 unary plus on an integer-valued operand")
+	case 2:
+		v, ok := verifRun(vm, expr+"+"+expr)
+		f, _ := v.ToFloat()
+		verifAssert(ok && v.IsNumber() && sameF64(f, x+x), "11.6.1 addition of integer-valued operands does not wrap")
+	case 3:
+		v, ok := verifRun(vm, expr+"-1")
+		f, _ := v.ToFloat()
+		verifAssert(ok && v.IsNumber() && sameF64(f, x-1), "11.6.2 subtraction on an integer-valued operand does not wrap")
+	case 4:
+		v, ok := verifRun(vm, "var t = "+expr+"; t++; t")
+		f, _ := v.ToFloat()
+		verifAssert(ok && v.IsNumber() && sameF64(f, x+1), "11.3.1 postfix increment on an integer-valued operand does not wrap")
+	default:
+		v, ok := verifRun(vm, "~"+expr)
+		f, _ := v.ToFloat()
+		verifAssert(ok && v.IsNumber() && f == float64(^int32(uint32(uint64(xi)))), "11.4.8 bitwise not on an integer-valued operand")
+	}
+}
